@@ -337,13 +337,20 @@ def behaviours_from_dump(path):
     return [c for p in parts for c in p]
 
 
+# the specification only compares measures: the same schedule is imposed with measures that are far apart, that differ
+# in the 12th digit, and that are tiny or huge in absolute terms (an implementation must not treat "almost equal" as equal)
+MEASURES = [lambda k: float(k), lambda k: 1.0 + k * 2.0 ** -40, lambda k: k * 1.0e6, lambda k: k * 1.0e-12, lambda k: 3.0e-7 + k * 1.0e-10]
+
+
 def scripted_run(beh, rng):
     nm = int(rng.choice([2, 3, 5]))
     mobile, table, tree = make_mobile(rng, nm)
     fixed = rng.normal(size=(int(rng.integers(1, 6)), 3))
-    obs = Observer(table, script={'e0': beh['e0'], 'steps': [tuple(s) for s in beh['steps']]})
+    f = MEASURES[int(rng.integers(0, len(MEASURES)))]
+    steps = [(k, f(e), acc, f(h)) for k, e, acc, h in beh['steps']]
+    obs = Observer(table, script={'e0': f(beh['e0']), 'steps': steps})
     ev = run_loop(obs, fixed, mobile, beh['nSteps'], None, table, tuple(beh['types']))
-    return ev, tree
+    return ev, tree, dict(beh, e0=f(beh['e0']), steps=steps)
 
 
 def compare_scripted(beh, ev):
@@ -378,8 +385,8 @@ def _work_scripted(args):
     with open(part, 'w') as fh:
         for i, beh in enumerate(behs):
             rng = np.random.default_rng(seed + i)
-            ev, tree = scripted_run(beh, rng)
-            r = compare_scripted(beh, ev)
+            ev, tree, fbeh = scripted_run(beh, rng)
+            r = compare_scripted(fbeh, ev)
             if r is not None:
                 bad.append((beh, r, ev[-6:]))
             tid = tid0 + i
@@ -441,9 +448,43 @@ def direct_rule(run, n):
     run.evaluations += n
 
 
+def apalache_inductive(run):
+    """unbounded complement: Apalache discharges the inductive invariant of spec/ApaMonteCarlo.tla (integer
+    measures and budgets of any size): Init => IndInv and IndInv /\\ Next => IndInv'.  Reported in the evidence;
+    a tool problem is a note, a refuted invariant is a machinery failure (the specification would be wrong)."""
+    import shutil
+    import subprocess
+    exe = shutil.which('apalache-mc')
+    if not exe:
+        run.note('apalache-mc not found: inductive invariant not checked')
+        return
+    spec = os.path.join(tlc.SPEC_DIR, 'ApaMonteCarlo.tla')
+    res = {}
+    for name, args in (('base', ['--init=Init', '--inv=IndInv', '--length=0']), ('step', ['--init=IndInit', '--inv=IndInv', '--length=1'])):
+        out = os.path.join(run.scratch, 'apa_' + name)
+        try:
+            p = subprocess.run([exe, 'check'] + args + ['--out-dir=' + out, spec], cwd=run.scratch, stdout=subprocess.PIPE,
+                               stderr=subprocess.STDOUT, text=True, timeout=600, env=dict(os.environ, JVM_ARGS='-Xmx4g'))
+        except subprocess.TimeoutExpired:
+            run.note('apalache timed out on the %s case: inductive invariant not established' % name)
+            return
+        if 'The outcome is: NoError' in p.stdout:
+            res[name] = 'NoError'
+        elif 'Checker has found an error' in p.stdout:
+            raise tlc.TLCError('Apalache refutes IndInv (%s case): the specification is wrong\n%s' % (name, p.stdout[-1500:]))
+        else:
+            run.note('apalache did not complete the %s case (%s)' % (name, p.stdout.strip().splitlines()[-1][:120] if p.stdout.strip() else 'no output'))
+            return
+    run.extra['apalache_inductive_invariant'] = dict(res, invariant='IndInv: counter <= nSteps; a step under way => counter < nSteps; '
+                                                     'minE <= heldE; proposed kind enabled; done => counter = nSteps /\\ ret = held',
+                                                     scope='unbounded integers (measures, budget)')
+    run.assumptions.append('Apalache 0.58 established IndInv of ApaMonteCarlo.tla as an inductive invariant (unbounded complement of the TLC runs)')
+
+
 def check(run):
     common.import_repo()
     quick = run.quick
+    apalache_inductive(run)
     # thorough: several bounded configurations instead of one large one (kinds multiply the state space by 2..3 per
     # step without adding bookkeeping behaviour): more measures, longer budgets, every type set
     blist = [(3, 2, '{{0}, {1, 2}}')] if quick else [(4, 2, '{{0}, {1, 2}}'), (3, 3, '{{0}}'), (2, 3, '{{0}, {1, 2}}'),
@@ -541,8 +582,8 @@ def replay(run):
         beh = rec['behaviour']
         beh['steps'] = [tuple(s) for s in beh['steps']]
         for i in range(5):
-            ev, _ = scripted_run(beh, np.random.default_rng(i))
-            r = compare_scripted(beh, ev)
+            ev, _, fbeh = scripted_run(beh, np.random.default_rng(i))
+            r = compare_scripted(fbeh, ev)
             if r:
                 run.violation({'check': 'scripted:' + r[0]}, {'behaviour': beh, 'detail': r[1]})
                 break
